@@ -126,8 +126,9 @@ class Oracle:
 
 
 class SingleRun:
-    def __init__(self, trace: dict, oracles: list[Oracle], prop: str, pt2: Any = "from_trace") -> None:
+    def __init__(self, trace: dict, oracles: list[Oracle], prop: str, pt2: Any = "from_trace", sane_guard: bool = True) -> None:
         self.trace = trace
+        self.sane_guard = sane_guard  # (fault-injecting runs judge non-finite parameters themselves)
         self.prop = prop
         self.oracles = oracles
         self.probes: Counter = Counter()
@@ -222,7 +223,7 @@ class SingleRun:
                 self.event_index = ei
                 op = ev["op"]
                 if op == "step":
-                    if self.left_sane_range():
+                    if self.sane_guard and self.left_sane_range():
                         # a blown-up trajectory (|w| beyond 1e12 or non-finite with finite, O(1) gradients): the oracles' error
                         # models say nothing there (overflow, underflow of roots, chaotic amplification) - the run ends without
                         # a verdict on the remaining steps
@@ -977,12 +978,17 @@ class NormTransferOracle(Oracle):
 
     def __init__(self, ref: RefOracle) -> None:
         self.ref = ref
+        self.had_refresh: set[tuple[int, int]] = set()  # blocks that took part in a scheduled root computation
 
     def post_step(self, run: SingleRun, ei: int, ev: dict, exc: BaseException | None) -> None:
         if exc is not None:
             return
         for gi, refs in enumerate(run.blocks):
             hp = run.hps[gi]
+            if run.group_present(gi, ev) and hp.is_refresh(run.counters[gi]):
+                for b in refs:
+                    if ev["g"][b.param_index] is not None:
+                        self.had_refresh.add((gi, b.li))
             if hp.grafting is None or hp.momentum != 0.0 or hp.weight_decay != 0.0 or not run.group_present(gi, ev):
                 continue
             t = run.counters[gi]
@@ -1012,6 +1018,21 @@ class NormTransferOracle(Oracle):
                 fin = torch.finfo(b.param.dtype)
                 hi, lo = math.sqrt(fin.max) * 1e-3, math.sqrt(fin.tiny) * 1e3
                 in_range = all(lo < x < hi for x in (sn, gn, refmodel._amax(exp.shampoo_direction), refmodel._amax(exp.graft_direction)) if x > 0.0)
+                if (
+                    sn == 0.0
+                    and gn > 0.0
+                    and in_range
+                    and (gi, b.li) in self.had_refresh
+                    and post.inv
+                    and all(float(x.abs().max()) == 0.0 for x in post.inv if x.numel())
+                    and not run.failure_messages
+                ):
+                    # the block took part in a scheduled root computation (at start_preconditioning_step or later), no
+                    # computation failed, and still no inverse root is stored: the step has norm 0 instead of the graft's
+                    raise run.violation(
+                        "graft_norm_not_transferred", gi, delta_norm=dn, expected=lr * gn, tol=0.0, note="no inverse root stored after a scheduled computation",
+                        block=b.key, param=b.param_index, shape=list(b.block.shape),
+                    )
                 if not in_range or not (sn > 1e-12 * max(gn, 1e-300)) or exp.amplification > 1e3 or gn == 0.0 or not math.isfinite(gn * lr):
                     # (norms whose squares leave the dtype's range overflow to inf / underflow to 0 in the rescale)
                     run.probes["norm_transfer_skip"] += 1
